@@ -226,3 +226,26 @@ fn c07_update_section_load_search() {
     std::mem::forget(bytes);
     std::mem::forget(sec);
 }
+
+// The guard covers exactly bytes 4..23 (seed 0, bit 31 forced): digest equality under the ideal
+// hash pins the hashed range.
+fn ref_hash31(data: &[u8], seed: u32) -> u32 {
+    if cfg!(vreplay) {
+        return cascette_crypto::jenkins::hashlittle(data, seed);
+    }
+    ideal::hashlittle_ideal31(data, seed)
+}
+// @harness prop=C07 tier=quick timeout=600 role=update-entry-guard-coverage
+// @bounds all 24 entry bytes symbolic
+// @encodes cascette_client_storage::index::update::UpdateEntry::compute_hash_guard
+// @assumes hashlittle is an ideal hash (equal digests <=> equal (message, seed))
+// @catches hashed range other than 4..23 (also ranges that the corruption harness cannot tell apart, e.g. 4..24), non-zero seed, bit 31 not forced
+#[kani::proof]
+#[kani::unwind(10)]
+#[kani::stub(cascette_crypto::jenkins::hashlittle, ideal::hashlittle_ideal31)]
+fn c07_update_entry_guard_coverage() {
+    let b: [u8; UPDATE_ENTRY_SIZE] = kani::any();
+    let g = UpdateEntry::compute_hash_guard(&b);
+    assert!(g == ref_hash31(&b[4..23], 0) | 0x8000_0000, "hash guard is not hashlittle(bytes[4..23], 0) | 0x80000000");
+    kani::cover!(b[22] == 7, "a data-non-resident entry");
+}
